@@ -241,7 +241,19 @@ impl<'a> YamlEmitter<'a> {
                 Ok(())
             }
             Yaml::Value(Scalar::Integer(v)) => Ok(write!(self.writer, "{v}")?),
-            Yaml::Value(Scalar::FloatingPoint(ref v)) => Ok(write!(self.writer, "{v}")?),
+            Yaml::Value(Scalar::FloatingPoint(ref v)) => {
+                // Use the YAML spellings of the special values and keep a decimal point or an
+                // exponent in finite ones so that they do not read back as integers.
+                if v.is_nan() {
+                    self.writer.write_str(".nan")?;
+                } else if v.is_infinite() {
+                    let text = if v.is_sign_positive() { ".inf" } else { "-.inf" };
+                    self.writer.write_str(text)?;
+                } else {
+                    write!(self.writer, "{:?}", v.0)?;
+                }
+                Ok(())
+            }
             Yaml::Value(Scalar::Null) | Yaml::BadValue => Ok(write!(self.writer, "~")?),
             Yaml::Representation(ref v, style, ref tag) => {
                 if let Some(Tag {
@@ -430,6 +442,8 @@ fn need_quotes(string: &str) -> bool {
         || string.starts_with("0x")
         || string.parse::<i64>().is_ok()
         || string.parse::<f64>().is_ok()
+        // Anything else that would not read back as a string.
+        || !matches!(Scalar::parse_from_cow(string.into()), Scalar::String(_))
 }
 
 #[cfg(test)]
